@@ -72,7 +72,7 @@ def rule_valid_suite(ctx):
     """every rule and sub/subn on the corpus: valid in -> valid out"""
     s = Suite("C03-rule-validity", kind="oracle")
     rules = sweep.rule_names()
-    items = sweep.pick(sweep.generated_corpus(), ctx, 40) + sweep.pick(
+    items = sweep.pick(sweep.generated_corpus(), ctx, 40) + sweep.targeted() + [(oracles.sha(x), x, "adversarial") for x in sweep.ADVERSARIAL] + sweep.pick(
         [(oracles.sha(x), x, "repo-example") for x in oracles.repo_examples()], ctx, 120)
     results = oracles.pmap(sweep.task_rules, [(src, rules, True) for (_sha, src, _fam) in items])
     base = sweep.baseline("C03")
